@@ -39,6 +39,10 @@ CHECKS = {
             "Lean 4 induction over the pipeline list on top of the C04 model (result = described chain, log = reverse order, error = no list, equality with the >> chain via chain_assoc) + differential correspondence on generated YAML documents loaded through core.config.load + hand-built pipeline as oracle",
             "For every pipeline length and every mixture of !Tag (mapping/sequence/bare) and legacy __type__ elements: the loaded list is the described pipeline (each element's target is the very next object, configured arguments, each constructed once, last to first), a failing constructor yields no list, and the head equals what any grouping of the >> chain gives — Lean theorems; tied to core/config.py + config/yaml.py by loading generated YAML files with recording classes registered as tags and importable for __type__.",
             "Trusted: Lean kernel + standard axioms; model (sampling correspondence); PyYAML node construction (mapping -> keywords, sequence -> positionals); legacy elements with __args__ are outside the statement."),
+    "C15": ("§6 C15",
+            "Lean 4 theorems about the spawn loop, the release pass and reaping (induction over the loop / hit list), plus an identity invariant preserved by every adjustment + differential correspondence through run() under trio MockClock with the hatchery's iteration order passed to the model + independent oracle",
+            "grow covers the request and is minimal (without the last spawned child it is not covered), releases keep the request covered and no releasable child is kept, released children have demand 0, children without demand are reaped, children are only created by the factory, never both active and released, only freshly spawned children ever become active, aggregates: Lean theorems for arbitrary child sets and factories; tied to factory.py by op histories (random + exhaustive small depth).",
+            "Trusted: Lean kernel + standard axioms; model (sampling correspondence); set iteration order is an input taken from the implementation; factory children with positive demand; exact arithmetic; trio MockClock."),
 }
 
 PENDING_REASON = "check not built yet in this session (planned: Lean model + proof + correspondence, see DESIGN.md work order); not claimed until its check exists"
